@@ -32,3 +32,34 @@ PLAN["C04"].update({
     "level_note": "Trusted: ContextVar token semantics, the rely on application code (it leaves the current action as it found it), "
                   "encoding assumptions E1-E10; __exit__'s contract is part of C02/C03's function set.",
 })
+
+
+def plan(pid, driver, what, level_text, level_note, explanation="", trusted=(), **kw):
+    PLAN[pid] = dict(driver=driver, driver_what=what, level_text=level_text, level_note=level_note,
+                     explanation=explanation or level_text, trusted=list(trusted), **kw)
+
+
+plan("C03", "c03.py", "nests of actions x makers x scoping styles x exit kinds x 27 exception classes x extractor registrations, on the real code",
+     "Proof: Action._start / finish / __exit__ / addSuccessFields are discharged against postconditions transcribed from the statement: exactly one "
+     "start write and exactly one end write per action (ghost event log LOG == old + reports + [end] + reports), status failed iff an exception "
+     "object of *any* class was passed, exception name / reason / serializer selection, __exit__ returns None (the same object propagates), "
+     "finishing again emits nothing. safeunicode is proved total. Bounded native driver as cross-check and replay device.",
+     "Trusted: ILogger.write interface model (one write, never raises, extra writes are failure reports), extractor / __str__ opaque-call models, "
+     "get_fields_for_exception and write_traceback used through their contracts (their own bodies: C07's function set), encoding assumptions.")
+
+plan("C08", "c08.py", "failure masks over 1-3 destinations x messages x registration programs x nested logging, on the real code",
+     "Proof: Destinations.send is discharged with two loop invariants over ghost event sequences: every registered destination is offered the "
+     "message exactly once in list order whatever subset of the calls raises (proj_a(NEW) == destinations, all offers carry the message), "
+     "the collected errors are exactly the failed offers unless the message is itself a destination-failure report (count_failed), and exactly one "
+     "report is logged per collected error with everything inside the report block contained. Bounded native driver as cross-check/replay.",
+     "Trusted: Dest interface model (raises Exception subclasses only, does not mutate the message, does not re-enter Eliot), log_message used "
+     "through its contract, definitions of the spec functions proj_a / all_b / count_failed / all_reports, encoding assumptions. The recursion "
+     "guard is the decreases clause of the send/log_message/write cycle.")
+
+plan("C13", "c13.py", "type definitions x logged values x failing-serializer subsets x message kinds x loggers, on the real code",
+     "Proof: Logger.write leaves the caller's dictionary unchanged on every path, sends a fresh copy exactly once iff serialization succeeded, and "
+     "otherwise logs a traceback and a serialization_failure report and returns normally; _MessageSerializer.serialize makes exactly one "
+     "Field.serialize call per declared field and leaves undeclared fields untouched; Field.serialize applies the serializer exactly once to the "
+     "logged value; _start/finish select the start/success/failure serializer. Bounded native driver as cross-check/replay.",
+     "Trusted: Serializer interface model (arbitrary, possibly raising, non-idempotent functions that do not touch Eliot's objects), "
+     "Destinations.send / write_traceback / log_message through their contracts, encoding assumptions. Known finding C13-F1 (MemoryLogger.validate).")
